@@ -2,6 +2,7 @@
 check and replays the reported input on the mutant and on the clean tree (not part of the check).
 
 usage: git -C /repo worktree add /work/repo-c04m HEAD; python tools/c03_c04_mutants.py [name prefix ...]
+       python tools/c03_c04_mutants.py --seeds [C03-1 ...]   (all stored seeded regressions, quick seeds 0 and 1)
 MUT_PATCHES: comma-separated fix patches applied to the scratch tree before each mutant (not yet in /repo);
 CLEAN_REPO: the tree the reported input is replayed on as "clean" (default: the check's default /repo).
 """
@@ -96,5 +97,47 @@ def main(only):
   sh('git -C %s checkout -q .' % R)
 
 
+def seeds(only):
+  """Every stored seeded regression (seeded/C03-*/patch.diff, seeded/C04-*/patch.diff) that still applies
+  to the scratch tree: is it caught at quick seeds 0 and 1, with a failing input that passes on the clean tree?"""
+  import glob
+  rows = []
+  dirs = sorted(glob.glob(os.path.join(V, 'seeded', 'C0[34]-*')), key=lambda d: (d.split('/')[-1][:3], int(d.split('-')[-1])))
+  for d in dirs:
+    name = os.path.basename(d)
+    if only and name not in only:
+      continue
+    prop = name.split('-')[0]
+    patch = os.path.join(d, 'patch.diff')
+    reset()
+    if sh('git -C %s apply --check %s' % (R, patch)).returncode != 0:
+      rows.append((name, 'does not apply', '', ''))
+      continue
+    sh('git -C %s apply %s' % (R, patch))
+    cells = []
+    for seed in (0, 1):
+      r = sh("cd %s && VERIF_SEED=%d VERIF_REPO=%s ./check %s --tier quick 2>&1 | grep -v 'conda\\|KNOWN\\|NOTICE'" % (V, seed, R, prop))
+      lines = r.stdout.strip().split('\n')
+      viol = [l for l in lines if l.startswith('VIOLATION')]
+      if not viol:
+        cells.append('MISSED')
+        continue
+      rp = re.search(r'replay=(\S+)', viol[0]).group(1)
+      info = json.load(open(os.path.join(V, rp)))
+      sig = info.get('signature') or info.get('kind')
+      if 'no-failing' in viol[0]:
+        cells.append('flagged, no failing input (%s)' % sig)
+        continue
+      r2 = sh("cd %s && %s ./check %s --replay %s >/dev/null 2>&1; echo $?" % (V, ('VERIF_REPO=' + CLEAN) if CLEAN else '', prop, rp))
+      cells.append('caught %s (clean replay exit %s)' % (sig, r2.stdout.strip()))
+    rows.append((name, 'applies', cells[0], cells[1]))
+    print('%-7s | %-8s | seed0: %s | seed1: %s' % rows[-1], flush=True)
+  reset()
+  return rows
+
+
 if __name__ == '__main__':
-  main(sys.argv[1:])
+  if sys.argv[1:2] == ['--seeds']:
+    seeds(sys.argv[2:])
+  else:
+    main(sys.argv[1:])
